@@ -21,12 +21,27 @@ RULE = RULE + probes.RULE_TEXT + (probes.AUG_TEXT if PROPERTY_ID in probes.AUG_P
 ASSUMPTIONS = ["tolerance 1e-9*max(1,|q|)", "pitch argument of Revolute, isrevolute and isunit are not in the statement"]
 
 TWO_PI = 2 * math.pi
+PI_ = math.pi
 
 
 def thetas():
     return st.one_of(st.sampled_from([0.0, math.pi / 2, -math.pi / 2, math.pi, -math.pi, 1.5 * math.pi, -1.5 * math.pi, TWO_PI, -TWO_PI]),
                      st.tuples(st.sampled_from([0.0, math.pi / 2, math.pi, -math.pi]), gens.offsets(1, 15)).map(lambda t: t[0] + t[1]),
                      gens.fl(-TWO_PI, TWO_PI), gens.fl(-TWO_PI, TWO_PI))
+
+
+def theta_lists():
+    """vector theta: independent values, or an arithmetic progression (a joint sweep) that is exact, or only NEARLY evenly
+    spaced (one element off by a relative 1e-9 .. 1e-4 of the step): each element stands for itself"""
+    def sweep(t):
+        t0, step, n, j, eps, sgn = t
+        out = [t0 + k * step for k in range(n)]
+        if eps is not None:
+            out[j % n] += sgn * eps * step
+        return out
+    sw = st.tuples(gens.fl(-PI_, PI_), st.one_of(gens.fl(0.05, 1.5), st.sampled_from([0.5, 1.0, PI_ / 4])), st.integers(3, 5), st.integers(0, 4),
+                   st.one_of(st.none(), gens.logmag(-9, -4), gens.logmag(-7, -5)), st.sampled_from([-1.0, 1.0])).map(sweep)
+    return st.one_of(st.lists(thetas(), min_size=1, max_size=4), st.lists(thetas(), min_size=1, max_size=4), sw)
 
 
 def points(dim):
@@ -36,18 +51,18 @@ def points(dim):
 def s_rev3():
     return st.fixed_dictionaries({"kind": st.just("rev3"), "a": gens.axis3(-3, 6), "q": points(3), "theta": thetas(),
                                   "lam": gens.fl(-10, 10), "k": st.one_of(gens.fl(-3, 3), st.integers(-3, 3).map(float)),
-                                  "thetas": st.lists(thetas(), min_size=1, max_size=4), "form": st.sampled_from(["list", "array", "tuple"]),
+                                  "thetas": theta_lists(), "form": st.sampled_from(["list", "array", "tuple"]),
                                   "theta_rule": st.sampled_from(THETA_RULES)})
 
 
 def s_pris3():
     return st.fixed_dictionaries({"kind": st.just("pris3"), "a": gens.axis3(-3, 6), "theta": st.one_of(thetas(), gens.signed_logmag(-6, 3)),
-                                  "k": gens.fl(-3, 3), "thetas": st.lists(thetas(), min_size=1, max_size=4)})
+                                  "k": gens.fl(-3, 3), "thetas": theta_lists()})
 
 
 def s_rev2():
     return st.fixed_dictionaries({"kind": st.just("rev2"), "q": points(2), "theta": thetas(), "k": gens.fl(-3, 3),
-                                  "thetas": st.lists(thetas(), min_size=1, max_size=4), "theta_rule": st.sampled_from(THETA_RULES)})
+                                  "thetas": theta_lists(), "theta_rule": st.sampled_from(THETA_RULES)})
 
 
 def s_pris2():
